@@ -594,12 +594,31 @@ func legC12Hist(c *Ctx) {
 			rows = append(rows, r)
 		}
 		var msteps [][]int64
+		noModel := false // a spurious wall-clock timeout inside the history: its bookkeeping cannot be predicted
 		for i, st := range steps {
 			s := sh[st.re]
 			fresh := s.spec.compile()
 			current.Store(fmt.Sprintf("history #%d step %d (fresh Regexp) %s", h, i, c12StepDesc(st, specs, repls)))
 			beat.Add(1)
 			fo := c12Exec(fresh, st, repls, s.ngroups)
+			if fo.canon != outs[i].canon && s.spec.timeout != 0 && st.text != c12Catastrophic &&
+				(strings.HasPrefix(fo.canon, "ERR match timeout") != strings.HasPrefix(outs[i].canon, "ERR match timeout")) {
+				// a wall-clock deadline fired on one side for an input that is not catastrophic (loaded machine):
+				// compare the side that did not time out with the deadline-free result instead
+				nt := s.spec.compile()
+				nt.MatchTimeout = regexp2.DefaultMatchTimeout
+				ref := c12Exec(nt, st, repls, s.ngroups).canon
+				gates["spurious-timeout"]++
+				if strings.HasPrefix(fo.canon, "ERR match timeout") {
+					fo.canon = ref
+				} else if outs[i].canon == ref {
+					fo.canon = outs[i].canon
+				}
+				if strings.HasPrefix(outs[i].canon, "ERR match timeout") {
+					fo.canon = outs[i].canon // the history's own timeout is wall-clock, not state: accept
+					noModel = true
+				}
+			}
 			if fo.canon != outs[i].canon {
 				fail(i, st, "in the history the call returned %.300s; on a freshly compiled Regexp it returns %.300s", outs[i].canon, fo.canon)
 			}
@@ -643,8 +662,12 @@ func legC12Hist(c *Ctx) {
 				fmt.Fprintf(&desc, " %s => %.40s;", c12StepDesc(st, specs, repls), outs[i].canon)
 			}
 		}
-		c.Add(&Case{Desc: desc.String(), ModelLeg: 1201, ModelIn: in, ImplOut: implOut, Nontrivial: recycled > 0,
-			Key: fmt.Sprintf("h%d", h), Class: fmt.Sprintf("len<=%d", ((len(steps)+39)/40)*40), Direct: strings.Join(direct, " || ")})
+		hc := &Case{Desc: desc.String(), ModelLeg: 1201, ModelIn: in, ImplOut: implOut, Nontrivial: recycled > 0,
+			Key: fmt.Sprintf("h%d", h), Class: fmt.Sprintf("len<=%d", ((len(steps)+39)/40)*40), Direct: strings.Join(direct, " || ")}
+		if noModel {
+			hc.ModelLeg, hc.ModelIn, hc.ImplOut = 0, nil, nil
+		}
+		c.Add(hc)
 		for _, s := range sh {
 			s.re.VerifOnScan(nil)
 		}
@@ -897,6 +920,9 @@ func c12ModelStep(st *c12Step, s *c12Shared, tok func(string) int64, mask int64,
 		}
 		probe := s.spec.compile()
 		kind, idx, ln, tp := c12SafeScan(probe, code == 1, runes, int(start), int(prevlen))
+		for try := 0; kind == 3 && text != c12Catastrophic && try < 3; try++ { // wall-clock deadline on a loaded machine
+			kind, idx, ln, tp = c12SafeScan(s.spec.compile(), code == 1, runes, int(start), int(prevlen))
+		}
 		addRow([]int64{0, re, code, token, start, pos, int64(kind), int64(idx), int64(ln), int64(tp)})
 		if kind != 1 {
 			break
